@@ -4,7 +4,12 @@ import FcpptModel.Gen.Scalar
 Driver for C06 (and the scalar part of C01): runs the definitions that `tools/cxx2lean.py`
 generated from /repo's headers.
 
-* `call f a [b [c]]`            — one result
+* `call f [a [b [c [d]]]]`      — one result (no argument: the compile-time masks `mask_c`, `shifted_mask_c`)
+* `list4 f as`                  — digest over all quadruples of a value list (`interval_distance`)
+* `alias f a`                   — the binary / ternary function called with THE SAME object for every parameter
+* `aliasl f as` / `aliasr f lo hi` — digest of `alias` over a list / a range
+* `static2 f a b`               — `ceil_div_static<T, a, b>::value` (harness: compile-time table) against the run-time `ceil_div`
+* `enumsize u m`                — `enum_::size<E>::value` of the harness enum over `u` whose `fcppt_maximum` is `m`
 * `range1 f lo hi`              — digest over a ∈ [lo,hi]
 * `range2 f alo ahi blo bhi`    — digest over the rectangle (a outer loop)
 * `range3 f lo hi`              — digest over all triples in [lo,hi]³
@@ -26,9 +31,59 @@ def fold2 (f : Int → Int → String) (as bs : List Int) : UInt64 :=
   as.foldl (fun h a => bs.foldl (fun h b => fnv h (f a b)) h) fnvInit
 def fold3 (f : Int → Int → Int → String) (as : List Int) : UInt64 :=
   as.foldl (fun h a => as.foldl (fun h b => as.foldl (fun h c => fnv h (f a b c)) h) h) fnvInit
+def fold4 (f : Int → Int → Int → Int → String) (as : List Int) : UInt64 :=
+  as.foldl (fun h a => as.foldl (fun h b => as.foldl (fun h c => as.foldl (fun h d => fnv h (f a b c d)) h) h) h) fnvInit
+
+/-- a binary / ternary function applied to one value in every position -/
+def aliased (f : String) : Option (Int → String) :=
+  match table2.lookup f with
+  | some g => some (fun a => g a a)
+  | none => match table3.lookup f with
+    | some g => some (fun a => g a a a)
+    | none => none
+
+/-- size types of the harness enums -/
+def enumSizeTy : String → Option IntTy
+  | "u8" => some IntTy.u8 | "u16" => some IntTy.u16 | "u32" => some IntTy.u32 | "u64" => some IntTy.u64
+  | _ => none
 
 def handle (toks : List String) : String :=
   match toks with
+  | ["call", f] =>
+    match table0.lookup f with
+    | some r => r
+    | none => "bad-op"
+  | ["call", f, a, b, c, d] =>
+    match table4.lookup f, a.toInt?, b.toInt?, c.toInt?, d.toInt? with
+    | some g, some a, some b, some c, some d => g a b c d
+    | _, _, _, _, _ => "bad-op"
+  | ["list4", f, as] =>
+    match table4.lookup f, parseIntList as with
+    | some g, some as => "D " ++ hex64 (fold4 g as)
+    | _, _ => "bad-op"
+  | ["alias", f, a] =>
+    match aliased f, a.toInt? with
+    | some g, some a => g a
+    | _, _ => "bad-op"
+  | ["aliasl", f, as] =>
+    match aliased f, parseIntList as with
+    | some g, some as => "D " ++ hex64 (fold1 g as)
+    | _, _ => "bad-op"
+  | ["aliasr", f, lo, hi] =>
+    match aliased f, lo.toInt?, hi.toInt? with
+    | some g, some lo, some hi => "D " ++ hex64 (fold1 g (irange lo hi))
+    | _, _, _ => "bad-op"
+  | ["static2", f, a, b] =>
+    -- ceil_div_static<T, a, b>: the run-time function of the same type on the same operands (b ≠ 0 is a static_assert)
+    match (if f = "ceil_div_static_u32" then table2.lookup "ceil_div_u32" else if f = "ceil_div_static_u64" then table2.lookup "ceil_div_u64" else none),
+          a.toInt?, b.toInt? with
+    | some g, some a, some b => if b = 0 then "bad-op" else g a b
+    | _, _, _ => "bad-op"
+  | ["enumsize", u, m] =>
+    -- enum_::size<E> = integral_constant<size_type<E>, enum_to_int<size_type<E>>(max_value<E>) + 1U>
+    match enumSizeTy u, m.toInt? with
+    | some t, some m => if t.InRange m ∧ t.InRange (m + 1) then toString (m + 1) else "bad-op"
+    | _, _ => "bad-op"
   | ["call", f, a] =>
     match table1.lookup f, a.toInt? with
     | some g, some a => g a
